@@ -285,6 +285,9 @@ def run_eos(u, conc=False):
         ob.prove("inner: palindrome", pal(w2), [], domain='ground')
         if phi1 in EOS_ORDERS and 'modified' not in rec2.extra and n == 1:
             order_obligations(ob, [(0 if l == 'A' else 1, c) for l, c in w2], EOS_ORDERS[phi1], label + "inner")
+    elif cw2 is not None:
+        # processed inner schemes: pre- and post-processor cancel in the budgets, the n substeps still advance the inner flow by dt
+        ob.prove("inner (processed): %d substeps give net drift == dt and net kick == dt" % n, z3.And(near(sum(c for l, c in cw2 if l == 'A')), near(sum(c for l, c in cw2 if l == 'B'))), [], domain='ground')
     return ob.results if conc else rep
 
 def run_janus(u, conc=False):
@@ -532,6 +535,8 @@ def main():
             for n in ((1, 2) if tier == 'quick' else (1, 2, 3)):
                 if tier == 'quick' and n == 2 and p1 != 'REB_EOS_LF': continue
                 us.append(dict(what='eos', phi0=p0, phi1=p1, n=n))
+    if tier == 'quick':
+        for p1 in ('REB_EOS_PLF7_6_4', 'REB_EOS_PMLF4', 'REB_EOS_PMLF6', 'REB_EOS_LF8_6_4', 'REB_EOS_LF4_2'): us.append(dict(what='eos', phi0='REB_EOS_LF', phi1=p1, n=2))
     # deferred synchronisation (safe_mode = 0): two steps + synchronize must be the same word as two synchronised steps
     for co in coords:
         us.append(dict(what='wh', integ='WHFAST', set={'ri_whfast.coordinates': 'REB_WHFAST_COORDINATES_' + co}, unsync=True))
